@@ -185,15 +185,27 @@ pub fn clustered_name() -> BoxedStrategy<Vec<u8>> {
 }
 
 pub fn query_pairs(max: usize) -> BoxedStrategy<Vec<(B, B)>> {
-    vec((clustered_name(), prop_oneof![3 => byte_string(6), 1 => Just(vec![]), 1 => clustered_name()]), 0..=max)
-        .prop_map(|v| v.into_iter().map(|(n, v)| (B(n), B(v))).collect())
-        .boxed()
+    let small = vec((clustered_name(), prop_oneof![3 => byte_string(6), 1 => Just(vec![]), 1 => clustered_name()]), 0..=max)
+        .prop_map(|v| v.into_iter().map(|(n, v)| (B(n), B(v))).collect::<Vec<(B, B)>>());
+    if max < 4 {
+        return small.boxed();
+    }
+    // occasionally MANY parameters, few distinct names, differing values (sort stability, map growth)
+    let many = (21usize..90, 1usize..12, any::<u16>()).prop_map(|(n, names, salt)| {
+        (0..n)
+            .map(|i| {
+                let k = (i * 7 + salt as usize) % names;
+                (B(format!("n{:02}", k).into_bytes()), B(format!("v{:03}", (i * 31 + salt as usize) % 997).into_bytes()))
+            })
+            .collect::<Vec<(B, B)>>()
+    });
+    prop_oneof![30 => small, 1 => many].boxed()
 }
 
 pub const HEADER_POOL: &[&str] = &[
     "x-amz-meta-a", "x-amz-meta-b", "x-amz-content-sha256", "x-amz-target", "etag", "accept", "content-md5", "range",
     "x-custom", "x-custom-2", "user-agent", "x-amzn-trace-id", "cache-control", "x-a", "my-header1", "my-header2",
-    "x-amz-acl", "if-match", "date", "x-custom-source", "x-custom-source-range", "content-length", "content-type",
+    "x-amz-acl", "if-match", "date", "x-custom-source", "x-custom-source-range", "content-length", "content-type", "x_under", "x.dot", "x-a-",
 ];
 
 /// canonical header value: visible bytes, 0x80-0xFF, tabs, single inner spaces; no outer spaces, no space runs
@@ -249,7 +261,14 @@ pub fn extra_headers(max: usize) -> BoxedStrategy<Vec<(String, Vec<B>)>> {
 pub fn body_bytes(max_class: u8) -> BoxedStrategy<Vec<u8>> {
     match max_class {
         0 => prop_oneof![3 => Just(vec![]), 3 => vec(any::<u8>(), 0..=48)].boxed(),
-        1 => prop_oneof![3 => Just(vec![]), 4 => vec(any::<u8>(), 0..=48), 1 => vec(any::<u8>(), 0..=1500)].boxed(),
+        1 => prop_oneof![
+            6 => Just(vec![]),
+            8 => vec(any::<u8>(), 0..=48),
+            2 => vec(any::<u8>(), 0..=1500),
+            1 => (any::<u8>(), 54usize..=66).prop_map(|(b, n)| vec![b; n]),
+            1 => (any::<u8>(), prop_oneof![Just(4095usize), Just(4096), Just(4097), Just(8192), Just(8193), 2000usize..12_000]).prop_map(|(b, n)| (0..n).map(|i| b.wrapping_add((i % 253) as u8)).collect()),
+        ]
+        .boxed(),
         _ => prop_oneof![
             3 => Just(vec![]),
             4 => vec(any::<u8>(), 0..=48),
@@ -342,6 +361,12 @@ pub struct Spelling {
     /// spell a '+' of a path segment literally (only the known-finding probes do; everything else escapes it)
     #[serde(default)]
     pub plus_literal: bool,
+    /// request target in absolute form (scheme://authority prefix): 0 = origin form
+    #[serde(default)]
+    pub absolute_form: u8,
+    /// bit 0: trailing '&' after the last parameter; bit 1: a bare '?' when there are no parameters
+    #[serde(default)]
+    pub query_tail: u8,
 }
 
 pub fn spelling() -> BoxedStrategy<Spelling> {
@@ -357,7 +382,7 @@ pub fn spelling() -> BoxedStrategy<Spelling> {
         prop_oneof![6 => Just(11u8), 1 => Just(10u8), 1 => Just(2u8), 1 => Just(3u8), 1 => Just(9u8)],
     )
         .prop_map(|(bytes, query_order, amp_padding, drop_eq, header_case, header_pad, header_order, path_noise, version)| {
-            Spelling { bytes, query_order, amp_padding, drop_eq, header_case, header_pad, header_order, path_noise, version, plus_literal: false }
+            Spelling { bytes, query_order, amp_padding, drop_eq, header_case, header_pad, header_order, path_noise, version, plus_literal: false, absolute_form: if path_noise % 11 == 3 { 1 + path_noise % 3 } else { 0 }, query_tail: if amp_padding % 5 == 1 { amp_padding >> 5 } else { 0 } }
         })
         .boxed()
 }
@@ -452,7 +477,24 @@ pub fn spell(l: &Logical, sp: &Spelling, s3: bool) -> WireRequest {
             qs.push_str(&spell_query_element(&v.0, &rot, true));
         }
     }
-    let uri = if q.is_empty() { path } else { format!("{}?{}", path, qs) };
+    if !q.is_empty() && sp.query_tail & 1 == 1 {
+        qs.push('&');
+    }
+    let uri = if q.is_empty() {
+        if sp.query_tail & 2 == 2 {
+            format!("{}?", path)
+        } else {
+            path
+        }
+    } else {
+        format!("{}?{}", path, qs)
+    };
+    let uri = match sp.absolute_form {
+        0 => uri,
+        1 => format!("http://example.amazonaws.com{}", uri),
+        2 => format!("https://h.example:8443{}", uri),
+        _ => format!("HTTP://Example.COM{}", uri),
+    };
     // headers: values of one name keep their order; different names are interleaved
     let mut flat: Vec<(usize, String, B)> = Vec::new();
     for (hi, (n, vals)) in l.headers.iter().enumerate() {
@@ -514,14 +556,20 @@ pub fn logical_canonical_path(l: &Logical) -> String {
 // ---------------------------------------------------------------------------------------------
 // configuration, clock, credentials
 
-pub const REGIONS: &[&str] =
-    &["us-east-1", "eu-west-2", "us-gov-west-1", "cn-north-1", "local", "us-east-1a", "us-east", "US-EAST-1", "r", ""];
-pub const SERVICES: &[&str] = &["service", "s3", "iam", "execute-api", "sts", "svc2", "s", "Service", "servic", ""];
+pub const REGIONS: &[&str] = &[
+    "us-east-1", "eu-west-2", "us-gov-west-1", "cn-north-1", "local", "us-east-1a", "us-east", "US-EAST-1", "r", "",
+    // names real deployments use (pseudo-regions, partitions, global endpoints)
+    "fips-us-gov-west-1", "us-east-1-fips", "aws-global", "aws-cn-global", "us-iso-east-1", "ap-southeast-3", "il-central-1", "global", "*", "us-east-1 ",
+];
+pub const SERVICES: &[&str] = &[
+    "service", "s3", "iam", "execute-api", "sts", "svc2", "s", "Service", "servic", "",
+    "s3-object-lambda", "s3express", "s3-fips", "dynamodb", "ec2", "lambda", "es", "aoss", "S3", "monitoring",
+];
 
 pub fn region() -> BoxedStrategy<String> {
     prop_oneof![
         5 => any::<u16>().prop_map(|x| REGIONS[pick_idx(x, 4)].to_string()),
-        2 => any::<u16>().prop_map(|x| REGIONS[pick_idx(x, REGIONS.len())].to_string()),
+        3 => any::<u16>().prop_map(|x| REGIONS[pick_idx(x, REGIONS.len())].to_string()),
     ]
     .boxed()
 }
@@ -529,7 +577,7 @@ pub fn region() -> BoxedStrategy<String> {
 pub fn service() -> BoxedStrategy<String> {
     prop_oneof![
         5 => any::<u16>().prop_map(|x| SERVICES[pick_idx(x, 4)].to_string()),
-        2 => any::<u16>().prop_map(|x| SERVICES[pick_idx(x, SERVICES.len())].to_string()),
+        3 => any::<u16>().prop_map(|x| SERVICES[pick_idx(x, SERVICES.len())].to_string()),
     ]
     .boxed()
 }
@@ -611,6 +659,9 @@ pub fn secret() -> BoxedStrategy<String> {
         3 => "[ -~]{0,40}",
         1 => Just(String::new()),
         1 => "[a-z]{1,8}",
+        1 => "A[KS]IA[A-Z0-9]{16}",
+        1 => "[0-9a-f]{32}",
+        1 => "[0-9a-f]{8}-[0-9a-f]{4}-[0-9a-f]{4}-[0-9a-f]{4}-[0-9a-f]{12}",
         1 => ("[!-~]{0,30}", prop_oneof![Just("\n"), Just("\r\n"), Just(" "), Just("\t"), Just("\r"), Just("  ")], any::<bool>()).prop_map(|(s, w, front)| if front { format!("{}{}", w, s) } else { format!("{}{}", s, w) }),
         1 => vec(prop_oneof![Just("é"), Just("ß"), Just("日"), Just("a"), Just("\u{0}"), Just("𝄞")], 0..10).prop_map(|v| v.concat()),
     ]
@@ -635,6 +686,7 @@ pub fn token() -> BoxedStrategy<Option<String>> {
         3 => "[A-Za-z0-9/+=]{1,60}".prop_map(Some),
         1 => Just(Some(String::new())),
         1 => "[!-~]{1,20}".prop_map(Some),
+        1 => (1000usize..3000).prop_map(|n| Some("Tok/+=".repeat(n / 6))),
     ]
     .boxed()
 }
@@ -653,7 +705,7 @@ pub fn principal_spec() -> BoxedStrategy<PrincipalSpec> {
 pub fn session_pairs() -> BoxedStrategy<Vec<(String, String)>> {
     prop_oneof![
         3 => Just(vec![]),
-        2 => vec(("[a-z:]{1,10}", "[ -~]{0,12}"), 1..4),
+        2 => vec(("[a-z:]{1,10}", prop_oneof![3 => "[ -~]{0,12}", 1 => Just("@null".to_string()), 1 => Just("true".to_string()), 1 => "-?[0-9]{1,12}", 1 => Just("10.1.2.3".to_string()), 1 => Just("::1".to_string()), 1 => Just(String::new())]), 1..5),
     ]
     .boxed()
 }
@@ -676,7 +728,7 @@ pub fn reqs_prefixes() -> BoxedStrategy<Vec<String>> {
         .prop_map(|v| {
             v.into_iter()
                 .map(|(x, pat)| {
-                    const P: &[&str] = &["x-amz-meta-", "x-amz-", "x-custom", "x-", "my-header", "e"];
+                    const P: &[&str] = &["x-amz-meta-", "x-amz-", "x-custom", "x-", "my-header", "e", "x-amz-meta-a", "x.", ""];
                     spell_header_name(P[pick_idx(x, P.len())], pat)
                 })
                 .collect()
@@ -858,6 +910,12 @@ pub fn plan(o: PlanOpts) -> BoxedStrategy<Plan> {
                 }
             }
             let needs_xamzdate = reqs.always.iter().any(|h| h.eq_ignore_ascii_case("x-amz-date"));
+            // an empty prefix demands that EVERY header be signed; with the Authorization header as carrier that
+            // is unsatisfiable (the header would have to sign itself), so it is only kept for the query carrier
+            let mut reqs = reqs;
+            if carrier == Carrier::Header {
+                reqs.prefixes.retain(|p| !p.is_empty());
+            }
             let fold = fold && o.allow_fold;
             let instant = truncate_to_style(inst, &style);
             let now = instant.add_nanos(-delta);
@@ -929,6 +987,15 @@ pub fn plan(o: PlanOpts) -> BoxedStrategy<Plan> {
             signed.dedup();
             // a signed header must exist in the request (the model leaves the other case unspecified)
             signed.retain(|n| present.contains(n));
+            if misc[1] % 8 == 3 && signed.len() >= 2 {
+                // the list as SENT may be in any order; the canonical form sorts it (C11)
+                let k = 1 + (misc[2] as usize % (signed.len() - 1));
+                signed.rotate_left(k);
+                if misc[3] % 2 == 0 {
+                    signed.reverse();
+                }
+                spec.keep_order = true;
+            }
             spec.signed_headers = signed;
             let entry = KeyEntry { access_key: ak, token, secret, derive_as: None, principal, session };
             Plan { logical, spelling, cfg, spec, entry, instant, style, form, ct_override: None }
